@@ -62,7 +62,7 @@ BOUNDS = {
                       "static local, bit-field initialiser, case label, enumerator, array size on a subset"},
     "thorough": {"targets": "x86_64 (LP64), arm (ILP32), msp430 (16-bit int), or1k (ILP32, big endian)",
                  "literal values": "as quick",
-                 "expression shapes": "all quick shapes on every target + 5000 depth-2 trees sampled by VERIF_SEED (random use, destination, target)",
+                 "expression shapes": "all quick shapes on every target + 3500 depth-2 trees sampled by VERIF_SEED (random use, destination, target)",
                  "uses": "as quick, all uses on every target"},
 }
 OUTSIDE = ["literal *spelling*: values are decimal, the type is fixed by the suffix and the value ranges over that type "
@@ -70,7 +70,7 @@ OUTSIDE = ["literal *spelling*: values are decimal, the type is fixed by the suf
            "bit-field *widths* and array designators as constant expressions (only the uses listed in the bounds)",
            "floating-point and address constants, sizeof, enumeration constants inside the expression",
            "expression trees deeper than 2 operators; among the sampled depth-2 trees those with more than one of * / %, with * / % "
-           "next to <<, with more than one <<, with a product whose right factor is not L, -L, (T)L, or with a growing operator inside a shift count (wide symbolic products and "
+           "next to <<, with more than one <<, with * / % over operands other than L, -L, (T)L, or with a growing operator inside a shift count (wide symbolic products and "
            "quotients of sub-expressions are out of the solvers' reach); shapes whose premise no literal assignment satisfies",
            f"shift counts built from literals larger than {SHIFT_COUNT_MAX} (undefined in C for every integer type)",
            "structure layout (padding/alignment): for struct fields only the bytes of the initialised field are compared"]
@@ -104,6 +104,9 @@ def lit(i, suffix=""):
 
 
 def lit_range(dm, suffix):
+    if suffix == "auto":
+        # unsuffixed decimal constant typed by its value: up to beyond ULLONG_MAX
+        return 0, (1 << 64) + 1000
     return 0, dm.hi(csem.SUFFIX_TYPE[suffix])
 
 
@@ -124,7 +127,7 @@ def program_text(use, dest, etext):
     if use == "case":
         return f"int f({T} x) {{ switch (x) {{ case {etext}: return 1; }} return 0; }}\n"
     if use == "enum":
-        return f"enum E {{ A = {etext}, B }};\n{T} g = A;\n{T} h = B;\n"
+        return f"enum E {{ P = 3, A = {etext}, B }};\n{T} g = A;\n{T} h = B;\n"
     if use == "arraysize":
         return f"char g[{etext}];\n"
     raise ValueError(use)
@@ -178,7 +181,7 @@ class CExprHarness(Harness):
     timeout_ms = 60000
     mode = "c27"
 
-    def __init__(self, use, dest, expr, march="x86_64", W=None):
+    def __init__(self, use, dest, expr, march="x86_64", paren="full", W=None):
         self.use = use
         self.dest = dest
         self.expr = expr
@@ -186,10 +189,12 @@ class CExprHarness(Harness):
         self.dm = ARCH[march]
         self.lits = csem.literals(expr)
         ops = optags(expr)
-        self.text = csem.render(expr, lambda i, s: f"L{i}{s}")
+        self.paren = paren
+        self.render = csem.render if paren == "full" else csem.render_min
+        self.text = self.render(expr, lambda i, s: f"L{i}{'' if s == 'auto' else s}")
         prefix = "c27" if self.mode == "c27" else "c28.c"
         self.name = f"{prefix}.{use}[{march}:{dest}<-{self.text}] ops=,{','.join(ops)},"
-        self.params = dict(use=use, dest=dest, expr=expr, march=march)
+        self.params = dict(use=use, dest=dest, expr=expr, march=march, paren=paren)
         # engine width: chosen adaptively by run_batch (EngineBound => retry wider); replay is concrete
         self.W = W or (80 + 64 * self.text.count("*") + (SHIFT_COUNT_MAX + 1) * self.text.count("<<"))
         self.shiftlits = csem.shift_count_literals(expr)
@@ -274,27 +279,43 @@ class CExprHarness(Harness):
             # (plus possibly the str key "default"), so collapsing the hashes of symbolic integers is sound
             core.ENG.hash_collapse = True
         if any_sym(*lv):
-            table = {}
+            from ppci.lang.c import utils as cutils
+            table, table_auto = {}, {}
 
             def littext(i, s):
-                tok = f"{101 + i}{s}"
-                table[tok] = lv[i]
+                if s == "auto":
+                    tok = f"{101 + i}"
+                    table_auto[tok] = lv[i]
+                else:
+                    tok = f"{101 + i}{s}"
+                    table[tok] = lv[i]
                 return tok
-            text = program_text(self.use, self.dest, csem.render(self.expr, littext))
+            text = program_text(self.use, self.dest, self.render(self.expr, littext))
             orig = CSemantics.on_number
+            orig_cnum = cutils.cnum
 
             def on_number(sem, value, location):
                 node = orig(sem, value, location)
                 if value in table:
                     node.value = table[value]
                 return node
+
+            def cnum(txt):
+                # value-typed (unsuffixed) literals: the symbolic value enters BEFORE on_number picks the type
+                value, spec = orig_cnum(txt)
+                if txt in table_auto:
+                    value = table_auto[txt]
+                return value, spec
             CSemantics.on_number = on_number
+            cutils.cnum = cnum
             try:
                 mod = c_to_ir(io.StringIO(text), self.march)
             finally:
                 CSemantics.on_number = orig
+                cutils.cnum = orig_cnum
         else:
-            text = program_text(self.use, self.dest, csem.render(self.expr, lambda i, s: f"{int(lv[i])}{s}"))
+            text = program_text(self.use, self.dest,
+                                self.render(self.expr, lambda i, s: f"{int(lv[i])}{'' if s == 'auto' else s}"))
             mod = c_to_ir(io.StringIO(text), self.march)
         return observe(self.use, mod)
 
@@ -403,7 +424,38 @@ def quick_templates(march="x86_64"):
                 T.append((use, d, [op, lit(0, ""), lit(1, "u" if op in ("sub",) else "")]))
                 if op in ("div", "sub") and use != "arraysize":
                     T.append((use, d, [op, ["neg", lit(0, "")], lit(1, "")]))
-    return [(u, d, e, march) for u, d, e in T]
+    # (5) unsuffixed decimal literals whose TYPE follows from the value (real on_number ladder on the symbolic value)
+    for d in ("int", "long", "ulong", "uchar"):
+        T.append(("global", d, lit(0, "auto")))
+    T.append(("global", "long", ["neg", lit(0, "auto")]))
+    T.append(("global", "ulong", ["add", lit(0, "auto"), lit(1, "")]))
+    T.append(("global", "int", ["shr", lit(0, "auto"), lit(1, "")]))
+    T.append(("global", "long", ["div", lit(0, "auto"), lit(1, "u")]))
+    T.append(("case", "long", lit(0, "auto")))
+    T = [(u, d, e, march) for u, d, e in T]
+    # (6) operator precedence / associativity: depth-2 shapes printed with only the parentheses C needs
+    T += [("global", "int", e, march, "min") for e in precedence_shapes()]
+    return T
+
+
+PREC_OPS = ["mul", "add", "sub", "shl", "lt", "eq", "band", "bxor", "bor", "land", "lor"]
+
+
+def precedence_shapes():
+    out = []
+    for o1 in PREC_OPS:
+        for o2 in PREC_OPS:
+            out.append([o1, [o2, lit(0), lit(1)], lit(2)])
+            out.append([o1, lit(0), [o2, lit(1), lit(2)]])
+    for u in ("neg", "inv", "lnot"):
+        for o in PREC_OPS + ["div", "mod"]:
+            out.append([o, [u, lit(0)], lit(1)])
+            out.append([u, [o, lit(0), lit(1)]])
+    out.append(["cond", ["lt", lit(0), lit(1)], lit(2), ["cond", lit(3), lit(4), lit(5)]])
+    out.append(["cond", ["cond", lit(0), lit(1), lit(2)], lit(3), lit(4)])
+    out.append(["cast", "char", ["add", lit(0), lit(1)]])
+    out.append(["add", ["cast", "char", lit(0)], lit(1)])
+    return [e for e in out if tractable(e)]
 
 
 def _rand_leaf(rnd, idx):
@@ -445,9 +497,19 @@ def _mul_right_leaf(e):
     return all(_mul_right_leaf(x) for x in e[1:] if isinstance(x, list))
 
 
+def heavy_on_leaves(e):
+    """in the sampled trees the operands of * / % are leaves L, -L, (T)L (all leaf combinations are in the
+    exhaustive depth-1 family; products and quotients of sub-expressions are out of the solvers' reach)"""
+    if e[0] == "lit":
+        return True
+    if e[0] in ("mul", "div", "mod") and not all(csem._is_leaf(x) for x in e[1:]):
+        return False
+    return all(heavy_on_leaves(x) for x in e[1:] if isinstance(x, list))
+
+
 def tractable(e):
-    if not _mul_right_leaf(e):
-        return False        # the right factor of a product is L, -L or (T)L
+    if not heavy_on_leaves(e):
+        return False
     txt = csem.render(e, lambda i, s: "L")
     heavy = txt.count("*") + txt.count("/") + txt.count("%")
     return txt.count("<<") <= 1 and heavy <= 1 and not (heavy and txt.count("<<")) and not _grows_in_count(e)
@@ -506,7 +568,7 @@ def select(tier, seed):
     for m in ARCH:
         T += quick_templates(m)
     rnd = random.Random(2700001 * seed + 27)
-    T += depth2_templates(rnd, 5000, list(ARCH))
+    T += depth2_templates(rnd, 3500, list(ARCH))
     return T
 
 
